@@ -404,7 +404,12 @@ def run_history(ctx, idx, rng, model, sessions, chunk_bytes):
                         elif op[0] == "table":
                             if op[1] in wm.tables:
                                 continue
-                            hw.store_table(op[1], model["tables"][op[1]])
+                            tin = model.get("table_inputs", {}).get(op[1])
+                            if tin is not None:
+                                ctx.count("tables_given_as_dict")
+                                if all(np.asarray(c).dtype.kind in "iub" for c in tin.values()):
+                                    ctx.count("tables_given_as_dict_all_integer")
+                            hw.store_table(op[1], model["tables"][op[1]] if tin is None else tin)
                             wm.store_table(op[1], model["tables"][op[1]])
                         elif op[0] == "meta":
                             part = model["meta_parts"][op[1]]
